@@ -152,6 +152,8 @@ class DictCache(collections.abc.MutableMapping):
         if key in self.long_term_keys:
             self.long_term_keys.remove(key)
             self.long_term_storage.delete(key)
+            if key in self.short_term_cache:
+                del self.short_term_cache[key]
 
     def __contains__(self, key):
         return key in self.long_term_keys
